@@ -1513,7 +1513,8 @@ def r11_8(rep):
 def r11_9(rep):
     """`Bindings::write_to_file` over an existing, longer file must not leave the old tail behind: then the file for given inputs
     depends on what an earlier generation wrote to that path.  `File::create` and `fs::write` truncate; an `OpenOptions` chain that
-    asks for `write(true)` must also ask for `truncate(true)` (or `create_new(true)`), and never for `append`.  Checked for the
+    asks for `write(true)` must also ask for `truncate(true)`, never for `append`, and not for `create_new` (which turns a left-over
+    file of a killed run into a failure - swallowed by `.ok()?` for the macro-fallback scratch file, so constants silently vanish).  Checked for the
     library and the command-line binary."""
     progs = [("lib", rep.prog)]
     try:
@@ -1557,8 +1558,10 @@ def r11_9(rep):
                 who = re.sub(r"<.*", "", (b.fact.get("impl_self") or "").split("::")[-1])
                 key = "starts-empty@%s%s" % ((who + "::" if who else ""), p.split("::")[-1])
                 writes = chain.get("write") not in (None, False) or chain.get("append") not in (None, False)
-                ok = (not writes) or ((chain.get("truncate") is True or chain.get("create_new") is True) and chain.get("append") in (None, False))
+                ok = (not writes) or (chain.get("truncate") is True and chain.get("create_new") in (None, False) and chain.get("append") in (None, False))
                 rep.check(ok, key, "opened with %s" % ", ".join("%s(%s)" % kv for kv in sorted(chain.items())) if ok else
-                          "opened for writing without truncation (%s): writing a shorter output over an existing file keeps the old tail, so "
-                          "the result depends on an earlier run" % ", ".join("%s(%s)" % kv for kv in sorted(chain.items())), b.loc(c))
+                          ("opened with `create_new` (%s): the open fails when a file of that name is left over from an earlier (killed) or "
+                           "concurrent run, so what this generation produces depends on that history" if chain.get("create_new") is True else
+                           "opened for writing without truncation (%s): writing a shorter output over an existing file keeps the old tail, so "
+                           "the result depends on an earlier run") % ", ".join("%s(%s)" % kv for kv in sorted(chain.items())), b.loc(c))
     rep.need(n >= 2, "OpenOptions::open call sites")
